@@ -30,7 +30,7 @@ import (
 func init() {
 	Register(&Check{
 		ID: "C31", World: "E/decision-cache", Gen: genCache, Run: runCache,
-		OwnProbes: []string{"kept_evicted_by_capacity", "resize_shrinks", "dropped_checked_after_ttl", "dropped_and_kept", "filter_rotated"},
+		OwnProbes: []string{"kept_evicted_by_capacity", "resize_shrinks", "dropped_checked_after_ttl", "dropped_and_kept", "filter_rotated", "drop_recorded_into_both_generations", "drop_checked_after_a_rotation"},
 		Real:      []string{"collect/cache.cuckooSentCache", "collect/cache.CuckooTraceChecker (add queue, drain loop, Maintain, rotation)", "collect/cache.KeptReasonsCache", "generics.SetWithTTL", "hashicorp/golang-lru", "panmari/cuckoofilter"},
 		Stub:      []string{"metrics (recording double)", "clock (synctest bubble clock: drain and maintenance tickers run on simulated time)"},
 	})
@@ -78,8 +78,37 @@ func genCache(r *Rng, tier string, p *Plan) {
 		ids = r.Range(8, 40)
 	}
 	now := int64(0)
+	fill := small && r.Bool(0.6)
+	if r.Bool(0.15) {
+		// a filter of a few hundred entries, filled in bursts
+		p.N["dropped"] = int64(PickOf(r, 60, 100, 250))
+		fill = true
+	}
+	nextFresh := int64(1000)
 	for i := 0; i < n; i++ {
 		id := int64(r.Intn(ids))
+		if fill && r.Bool(0.35) {
+			// a burst of drop records for fresh traces (pushes the filter towards a
+			// rotation), then time for the drain and a maintenance cycle or two
+			k := int64(max(1, 2*int(p.N["dropped"])/PickOf(r, 2, 3, 5))) // the filter has up to twice the configured slots
+			probe := r.Bool(0.6)
+			if probe {
+				// a decision recorded just before the burst, looked up after it
+				p.Add(Op{K: "drop", At: now, I: id})
+				if r.Bool(0.3) {
+					p.Add(Op{K: "kept", At: now, I: id, N: 2, S: "dynamic"})
+				}
+			}
+			p.Add(Op{K: "fill", At: now, I: nextFresh, N: k})
+			nextFresh += k
+			dt := p.N["size_check_us"] * int64(PickOf(r, 1, 2, 3))
+			now += dt
+			p.Add(Op{K: "adv", At: now, N: dt})
+			if probe {
+				p.Add(Op{K: PickOf(r, "check_trace", "check_span"), At: now, I: id})
+			}
+			continue
+		}
 		switch r.Intn(12) {
 		case 0, 1, 2:
 			p.Add(Op{K: "kept", At: now, I: id, N: int64(PickOf(r, 1, 2, 10, 1000)), S: PickOf(r, "rules/a", "dynamic", "deterministic/always", "")})
@@ -133,24 +162,67 @@ func runCache(t *testing.T, p *Plan) *Outcome {
 			}
 			return false
 		}
-		// dropped obligations: id -> index into met.loads at record time
+		// Dropped decisions. The filter has two generations: a record goes into the
+		// current filter and, once it exists, into the next one, which takes over
+		// when a maintenance cycle sees the current one full. The model follows the
+		// generations through the load-factor gauge of each maintenance cycle and
+		// counts the records routed into each filter. A record must be answered
+		// "dropped" for as long as a filter that received it is the current one and
+		// cannot have been filled to capacity: fewer records than three quarters of
+		// its slots since it was created (near capacity a cuckoo filter evicts old
+		// entries when an insert fails; that is "filled to capacity").
 		type dropRec struct {
-			loadsSeen int
-			at        time.Time
-			strong    bool // recorded while the filter was at most half full (no insert failure possible in practice)
+			gen    int // generation of the current filter at record time
+			twoGen bool
+			at     time.Time
 		}
 		dropped := map[string]*dropRec{}
 		everDropped := map[string]bool{}
-		dropsSinceRotation := 0
-		rotatedSince := func(d *dropRec) bool {
+		slots := func() float64 {
+			f := cuckoo.NewFilter(uint(p.N["dropped"]))
+			f.Insert([]byte("x"))
+			return 1 / f.LoadFactor()
+		}()
+		curGen, nextGenExists, gaugesSeen := 0, false, 0
+		routed := map[int]int{} // generation -> records routed into that filter
+		follow := func() {
 			met.mu.Lock()
 			defer met.mu.Unlock()
-			for _, l := range met.loads[d.loadsSeen:] {
+			for ; gaugesSeen < len(met.loads); gaugesSeen++ {
+				l := met.loads[gaugesSeen]
+				if !nextGenExists && l > 0.5 {
+					nextGenExists = true
+					routed[curGen+1] = 0
+				}
 				if l > 0.99 {
-					return true
+					curGen++
+					nextGenExists = true
+					routed[curGen+1] = 0
 				}
 			}
-			return false
+		}
+		noteDrop := func(id string, obligation bool) {
+			follow()
+			routed[curGen]++
+			if nextGenExists {
+				routed[curGen+1]++
+			}
+			everDropped[id] = true
+			if obligation {
+				dropped[id] = &dropRec{gen: curGen, twoGen: nextGenExists, at: time.Now()}
+				if nextGenExists {
+					out.Probe("drop_recorded_into_both_generations")
+				}
+			}
+		}
+		// held reports whether the record is still owed an answer, and whether a rotation lies behind it
+		held := func(d *dropRec) (owed bool, rotated bool) {
+			follow()
+			rotated = curGen > d.gen
+			if curGen == d.gen || (curGen == d.gen+1 && d.twoGen) {
+				return float64(routed[curGen]) <= 0.75*slots, rotated
+			}
+			return false, rotated
 		}
 		idOf := func(i int64) string { return traceIDFor(p.Seed, int(i)) }
 		const site = "collect/cache.cuckooSentCache"
@@ -160,10 +232,14 @@ func runCache(t *testing.T, p *Plan) *Outcome {
 			met.mu.Unlock()
 			// dropped obligation
 			if d, ok := dropped[id]; ok && qf == 0 {
-				if rotatedSince(d) {
+				owed, rotated := held(d)
+				if rotated {
 					out.Probe("filter_rotated")
-					delete(dropped, id)
-				} else if d.strong {
+				}
+				if owed {
+					if rotated {
+						out.Probe("drop_checked_after_a_rotation")
+					}
 					if time.Now().Sub(d.at) > 3*time.Second {
 						out.Probe("dropped_checked_after_ttl")
 					}
@@ -177,7 +253,7 @@ func runCache(t *testing.T, p *Plan) *Outcome {
 						out.Probe("dropped_and_kept")
 					}
 					if !found || rec.Kept() {
-						out.Violate("C31", "dropped_decision_not_answered_dropped", site+"."+where, "op#%d %s(trace#%d) at t=%v: recorded dropped at t=%v (filter not rotated since, add queue never overflowed) but answered found=%v kept=%v", op.ID, where, op.I, time.Now().Sub(start), d.at.Sub(start), found, found && rec.Kept())
+						out.Violate("C31", "dropped_decision_not_answered_dropped", site+"."+where, "op#%d %s(trace#%d) at t=%v: recorded dropped at t=%v into filter generation %d (next generation existed: %v); the current filter is generation %d and has received %d records (%d slots), the add queue never overflowed; answered found=%v kept=%v", op.ID, where, op.I, time.Now().Sub(start), d.at.Sub(start), d.gen, d.twoGen, curGen, routed[curGen], int(slots), found, found && rec.Kept())
 					}
 					return
 				}
@@ -224,23 +300,19 @@ func runCache(t *testing.T, p *Plan) *Outcome {
 					lru = lru[len(lru)-keptCap:]
 					out.Probe("kept_evicted_by_capacity")
 				}
+			case "fill":
+				for k := int64(0); k < op.N; k++ {
+					fid := idOf(op.I + k)
+					c.Record(&types.Trace{TraceID: fid}, false, "")
+					noteDrop(fid, false)
+					if ref != nil {
+						ref.Insert([]byte(fid))
+					}
+				}
 			case "drop":
 				tr := &types.Trace{TraceID: id}
 				c.Record(tr, false, "")
-				met.mu.Lock()
-				seen := len(met.loads)
-				lastLoad := 0.0
-				if seen > 0 {
-					lastLoad = met.loads[seen-1]
-				}
-				met.mu.Unlock()
-				if lastLoad > 0.99 {
-					dropsSinceRotation = 0
-				}
-				dropsSinceRotation++
-				strong := bigFilter || dropsSinceRotation*2 <= int(p.N["dropped"])
-				dropped[id] = &dropRec{loadsSeen: seen, at: time.Now(), strong: strong}
-				everDropped[id] = true
+				noteDrop(id, true)
 				if ref != nil {
 					ref.Insert([]byte(id))
 				}
